@@ -507,6 +507,13 @@ def _step_counter(ctx, rep) -> None:
         ok_once = is_add1 and dom and same_loop
         detail = f"increment `{ast.unparse(call)}`: by-one={is_add1}, dominates the group-step call={dom}, same (single) group loop={same_loop}"
     rep.ob("C01.4", "step-counter:once-by-one-before-group-step", ok_once, step.loc(incs[0].node) if incs else step.loc(), detail, sample=True)
+    # a counted step is a taken step: once the counter is incremented, every normal path (anything but a raise) to the next
+    # group / the end of step() runs the group step — a `continue` in between leaves the recurrences one step behind the counter
+    if len(incs) == 1 and group_calls:
+        n_inc, n_call = cfg.node_of(incs[0].node), cfg.node_of(group_calls[0])
+        heads = [n for n in cfg.nodes if n.kind == "loop" and n_inc is not None and any(n.ast is lp for lp in A.enclosing_loops(step.node, incs[0].node))]
+        taken = n_inc is not None and n_call is not None and cfg.all_paths_pass(n_inc, heads + [cfg.exit], lambda n: n is n_call)
+        rep.ob("C01.4", "step-counter:counted-step-is-taken", bool(taken), step.loc(incs[0].node), "after the counter is incremented every non-raising path to the next group (or the end of step()) runs the group step: no `continue` / early return between the increment and the per-group step", sample=True)
     # the counter lives in optimizer state, registered inside the group loop, per group
     inst = repo.method(DS, "_instantiate_steps")
     sl, grp = _state_loop_var(inst), _group_loop_var(inst)
